@@ -17,7 +17,9 @@ EXPLANATION = (
     "fallback of the attribute builder; GameMods::{ar,cs,hp,od} are used only as the mods_fn of ModsDependentKind::value; "
     "the override fields of Difficulty are read only by their get_*, by inspect and by derived impls — a calculator "
     "reading the mod value directly would ignore an explicit override. Numerical equality of results and lazer per-mod "
-    "settings are NOT decided.")
+    "settings are NOT decided."
+    " R3: no accessor lets the iteration order of the mod collection decide between mutually exclusive mod families (DT/NC vs HT/DC, HR vs EZ): a find/find_map over the mod list whose closure answers for kinds of both sides is reported, earlier dominating searches and filter predicates taken into account; rosu-mods' legacy_clock_rate (such a search) is not used."
+)
 
 GM = 'model::mods::GameMods'
 DIFF = 'any::difficulty::Difficulty'
@@ -73,7 +75,11 @@ def run(ctx):
             continue
         cond, vals = arms.arm_return_values(f)
         if set(vals) != {'Lazer', 'Intermode', 'Legacy'}:
-            continue
+            # accessor written as a call of one shared private look-up (`self.has_mod(Intermode::X, Some(Legacy::X))`): specialise
+            # that helper on the constant arguments and read its three arms
+            vals = via_shared_lookup(F, f)
+            if vals is None:
+                continue
         sums = {k: has_mod_summary(v) if v is not None else None for k, v in vals.items()}
         if any(s is None for s in sums.values()) and any(s is not None and s[0] == 'contains' for s in sums.values()):
             bad_arms = [k for k, s_ in sums.items() if s_ is None]
@@ -195,6 +201,7 @@ def run(ctx):
         for label in ('Lazer', 'Intermode', 'Legacy'):
             ctx.require(hits.get(label) == 'HardRock', 'C08-R1', 'reflection:' + label, '%s arm: HardRock -> Reflection::Vertical' % label, rf.where(),
                         bad='reflection(): in the %s arm Reflection::Vertical is tied to `%s`, not HardRock' % (label, hits.get(label)))
+    r3_iteration_order(ctx, F)
     # ---- R2 who-may-call
     callers = F.callers()
     cr = [c for c in callers.get('model::mods::GameMods::clock_rate', [])]
@@ -414,3 +421,118 @@ def fallback_of_override(F, fn, bi):
         if c[0] == 'discr' and on_override(c[1]) and lab == 'None':
             return True
     return False
+
+
+def via_shared_lookup(F, f):
+    rv = prov.strip(prov.prov_of(f).return_value(), names=set())
+    if rv[0] != 'call' or not rv[1].get('local') or (rv[1].get('impl_adt') or '') != GM or not rv[2] or rv[2][0] != ('param', 1):
+        return None
+    h = F.fn(rv[1].get('path') or '')
+    if h is None:
+        return None
+    sp = arms.specialized_paths(h, rv[2])
+    if not sp:
+        return None
+    vals = {}
+    for rest, val in sp:
+        labs = [lab for c, lab in rest if c[0] == 'discr' and c[1] == ('param', 1)]
+        others = [c for c, lab in rest if not (c[0] == 'discr' and c[1] == ('param', 1))]
+        if len(labs) != 1 or others or labs[0] in vals:
+            return None
+        vals[labs[0]] = val
+    return vals if set(vals) == {'Lazer', 'Intermode', 'Legacy'} else None
+
+
+# ---- R3: no value may be decided by the *iteration order* of the mod collection between two mutually exclusive mod families
+FAMILIES = [
+    ('clock rate', {'DoubleTime', 'Nightcore'}, {'HalfTime', 'Daycore'}),
+    ('attribute scaling', {'HardRock'}, {'Easy'}),
+]
+SEARCHES = ('find_map', 'find', 'position', 'rposition', 'find_map_any')
+MODE_SUFFIX = re.compile(r'(Osu|Taiko|Catch|Mania)$')
+
+
+def _kinds_of(F, cl_tree, want_bool=False):
+    """mod kinds for which the closure can answer Some(..) (or `true` for a predicate): read from its switch on the mod's kind"""
+    while cl_tree[0] == 'cast':
+        cl_tree = next((y for y in cl_tree[1:] if isinstance(y, tuple) and y and isinstance(y[0], str)), ('unknown',))
+    if cl_tree[0] == 'agg' and cl_tree[1] == 'closure':
+        cl = F.fn(cl_tree[2])
+    elif cl_tree[0] == 'const' and isinstance(cl_tree[1], dict) and cl_tree[1].get('fn'):
+        cl = F.fn(cl_tree[1]['fn'].get('path') or '')          # a function item handed to the search directly
+    else:
+        return None
+    if cl is None:
+        return None
+    cond, vals = arms.arm_return_values(cl)
+    if not vals:
+        # `|m| classify(m.intermode())`: the decision sits in a local helper
+        rv = prov.strip(prov.prov_of(cl).return_value(), names=set())
+        g = F.fn(rv[1].get('path') or '') if rv[0] == 'call' and rv[1].get('local') else None
+        if g is not None:
+            cond, vals = arms.arm_return_values(g)
+    if not vals:
+        return None
+    kinds = set()
+    for label, v in vals.items():
+        if v is None:
+            continue
+        alts = v[1] if v[0] == 'phi' else [v]
+        hit = False
+        for a in alts:
+            a = prov.strip(a, names=set())
+            if want_bool:
+                hit = hit or not (a[0] == 'const' and a[1].get('val') == 'false')
+            else:
+                hit = hit or not (a[0] == 'agg' and a[3] == 'None')
+        if hit:
+            for lab in label.split('|'):
+                kinds.add(MODE_SUFFIX.sub('', lab))
+    return kinds
+
+
+def r3_iteration_order(ctx, F):
+    n = 0
+    for fn in F.fns:
+        if not fn.path.startswith('model::mods::') or fn.kind == 'Closure':
+            continue
+        P = prov.prov_of(fn)
+        sites = []
+        for bi, t in fn.calls():
+            if t['func'].get('name') not in SEARCHES:
+                continue
+            args = P.call_args(bi)
+            if len(args) < 2 or not any(x[0] == 'call' and x[1].get('name') == 'iter' and x[1].get('krate') == 'rosu_mods' for x in prov.walk(args[0], limit=60)):
+                continue
+            kinds = _kinds_of(F, prov.strip(args[1], names=set()))
+            if kinds is None:
+                continue
+            it = prov.strip(args[0], names={'by_ref', 'copied', 'cloned'})
+            if it[0] == 'call' and it[1].get('name') == 'filter' and len(it[2]) == 2:
+                fk = _kinds_of(F, prov.strip(it[2][1], names=set()), want_bool=True)
+                if fk is not None:
+                    kinds &= fk
+            sites.append((bi, t, kinds))
+        # a later search only decides among the kinds no earlier (dominating) search answers for
+        for bi, t, kinds in sites:
+            earlier = set()
+            for bj, tj, kj in sites:
+                if bj != bi and fn.cfg.dominates(bj, bi):
+                    earlier |= kj
+            fresh = kinds - earlier
+            n += 1
+            for fam, a, b in FAMILIES:
+                both = (fresh & a) and (fresh & b)
+                ctx.require(not both, 'C08-R3', '%s:%s' % (fn.path.split('::', 2)[-1], fam),
+                            '%s: the search over the mod list decides within one %s family (%s)' % (fn.path, fam, sorted(fresh & (a | b)) or 'none'), fn.where(t.get('ln')),
+                            bad='%s picks the first of %s in the ITERATION ORDER of the mod collection: when mods of both %s families are present (legacy bits allow it) the '
+                                'lazer/intermode representation follows the collection order while the legacy bits follow a fixed precedence, so the same mod set gives '
+                                'different results depending on how it is spelled' % (fn.path, sorted(fresh & (a | b)), fam))
+    ctx.floor('C08-R3', n, 8, 'searches over the lazer mod list in model::mods')
+    # the intermode helper of rosu-mods is such a search (find_map over DT|NC -> 1.5, HT|DC -> 0.75 in collection order)
+    callers = F.callers().get('rosu_mods::GameModsIntermode::legacy_clock_rate', [])
+    for fn, bi, t in callers:
+        ctx.violation('C08-R3', 'legacy_clock_rate:' + fn.path, '%s calls GameModsIntermode::legacy_clock_rate, which answers in the iteration order of the collection (HalfTime before '
+                      'DoubleTime) while GameModsLegacy::clock_rate prefers DoubleTime: DT+HT given as bits and as intermode mods get different clock rates' % fn.path, fn.where(t.get('ln')))
+    if not callers:
+        ctx.ok('C08-R3', 'legacy_clock_rate', 'GameModsIntermode::legacy_clock_rate (iteration-order precedence) is not used')
